@@ -37,6 +37,9 @@ func checkC13(c *Ctx) {
 		c.Undecided("C13-R1", "package tcell", "-", "not loaded")
 		return
 	}
+	c.Rule("C13-R10", "a cell marked dirty (marker rune zero: SetDirty(true), Invalidate, UnlockCell) is reported dirty whatever it holds, also one nothing was ever stored in; combining runes are compared in full")
+	c.Expect("C13-R10", 2)
+	c.asRule("C08-R9", "C13-R10", func() { checkDirtyDecisions(c, p, "C08-R9") })
 	if dc := p.Fn("tcell:(*tScreen).drawCell"); dc != nil {
 		checkDirtyGate(c, p, dc, "C13-R1", isTermEmission, 3)
 	} else {
